@@ -240,6 +240,11 @@ def plain_items(tier, label=str):
                 rows = space.rows_of(n, m, code)
                 for k, v in context_obs(objs, props, rows):
                     items.append((f'{n}x{m}:{code}:{k}', v))
+    n, m = 40, 30       # more than 1000 cells
+    rows = [tuple((i * j + i + 2 * j) % 5 < 2 for j in range(m)) for i in range(n)]
+    for k, v in context_obs([label(f'obj{i:02d}') for i in range(n)],
+                            [label(f'prop{j:02d}') for j in range(m)], rows, unions=False):
+        items.append((f'big40x30:{k}', v))
     sections['contexts'] = items
     sections['errors'] = error_obs([label(x) for x in ['oa', 'ob', 'oc']],
                                    [label(x) for x in ['px', 'py', 'pz']])
